@@ -118,6 +118,7 @@ func c10(c *core.Ctx) {
 			reportRigProblems(c, probs, rg, map[string]interface{}{"client": o.String()})
 		}
 	})
+	c10Targeted(c)
 	c10Pairwise(c)
 	c10Stress(c)
 }
